@@ -400,6 +400,8 @@ from . import shared
 RULES = RULES + shared.bundle('C08', ['values', 'stride', 'maxpd', 'driver'], ['details'])
 from . import folds as _folds
 RULES = RULES + [_folds.fold_rule('C08')]
+from .. import refs as _refs
+RULES = RULES + [_refs.ref_rule('C08')]
 
 
 def run(tier="quick", replay=None):
